@@ -1004,6 +1004,7 @@ def emit_inst(p, out, decls, phis, curlab):
                 out.append(call + ';')
                 if dst and rt.k != 'void': declare(decls, dst, rt)
         if op == 'invoke':
+            while p.peek() is not None and p.peek() != 'to': p.next()   # attribute group refs (#N)
             p.eat('to'); p.eat('label'); n = p.next(); p.eat('unwind'); p.eat('label'); u = p.next()
             if raise_now: term('goto %s;' % lab(u))
             elif throws: term('if (exc_pending) goto %s; else goto %s;' % (lab(u), lab(n)))
